@@ -92,10 +92,30 @@ Apply(s, e) ==
 (* Ghosts from the observed events: every id a response ever returned, the
    number of transactions, and whether the last event returned an id that
    had been returned before (or the same id twice) *)
+(* made (audit after round 7; read by C19_Permanent): what the ACCEPTED CREATIONS
+   say can be read back - id returned by the i-th message's response |-> the
+   contents that message submitted, its creator, the transaction's hash -,
+   written once per id when the response returns it and never touched again;
+   never what the store says.  Long histories: only the ids of the logged window
+   (the k-th id ever returned is logged iff Keep(k); k counts the RESPONSES of
+   the history, not the module's counter). *)
 GhostInit == [issued |-> {}, ntx |-> 0, reused |-> FALSE,
-              blk |-> {}, old |-> {}, sameBlk |-> FALSE, sameOld |-> FALSE, lastRb |-> FALSE, afterRb |-> FALSE]
-GhostOf(t) == [GhostInit EXCEPT !.issued = DOMAIN t.rec]
+              blk |-> {}, old |-> {}, sameBlk |-> FALSE, sameOld |-> FALSE, lastRb |-> FALSE, afterRb |-> FALSE,
+              made |-> EmptyF]
+GhostOf(t) == [GhostInit EXCEPT !.issued = DOMAIN t.rec, !.made = t.rec]
 PairsOf(e) == {<<e.who, e.digests[i]>> : i \in DOMAIN e.digests}
+HistMade(g, e, t) ==
+  IF ~(e.name = "CreateRecord" /\ e.ok) THEN g.made
+  ELSE
+    LET n0 == Cardinality(g.issued)
+        Fresh(i) == e.ids[i] \notin g.issued /\ \A j \in 1..(i - 1) : e.ids[j] # e.ids[i]
+        Idx(i) == n0 + Cardinality({e.ids[j] : j \in 1..i} \ g.issued)
+        I == {i \in DOMAIN e.ids : i <= Len(e.digests) /\ Fresh(i) /\ Keep(t, Idx(i))}
+        new == {e.ids[i] : i \in I} \ DOMAIN g.made
+    IN [id \in DOMAIN g.made \cup new |->
+          IF id \in DOMAIN g.made THEN g.made[id]
+          ELSE LET i == CHOOSE k \in I : e.ids[k] = id
+               IN [digest |-> e.digests[i], creator |-> e.who, tx |-> e.tx]]
 GhostStep(g, s, e, t) ==
   LET new == IF e.ok THEN Range(e.ids) ELSE {}
       isC == e.name = "CreateRecord"
@@ -110,7 +130,8 @@ GhostStep(g, s, e, t) ==
    sameBlk |-> isC /\ e.ok /\ PairsOf(e) \cap g.blk # {},
    sameOld |-> isC /\ e.ok /\ PairsOf(e) \cap g.old # {},
    lastRb |-> IF isC THEN (~e.ok /\ e.poison) ELSE g.lastRb,
-   afterRb |-> isC /\ e.ok /\ g.lastRb]
+   afterRb |-> isC /\ e.ok /\ g.lastRb,
+   made |-> HistMade(g, e, t)]
 
 -----------------------------------------------------------------------------
 (***************************************************************************)
@@ -132,6 +153,14 @@ C19_Fresh(s, e, created) ==
 (* nothing alters or deletes a stored record, in any step *)
 C19_Immutable(s, t) ==
   \A id \in DOMAIN s.rec : id \in DOMAIN t.rec /\ t.rec[id] = s.rec[id]
+
+(* ... for ever after: under every id an accepted creation returned, exactly
+   what that creation submitted - contents, creator, transaction hash - can be
+   read back in every later state.  The expected value is the history's (ghost
+   made), not the previous state's: C19_Immutable compares a state with its
+   predecessor, so its quantifier ranges over what the store still shows *)
+C19_Permanent(t, g) ==
+  \A id \in DOMAIN g.made : id \in DOMAIN t.rec /\ t.rec[id] = g.made[id]
 
 (* two creations never receive the same id *)
 C19_Unique(g) == ~g.reused
@@ -184,6 +213,7 @@ GenConstraint ==
 Act_C19_Fresh == [][C19_Fresh(st, ev', st'.rec)]_vars
 Act_C19_Immutable == [][C19_Immutable(st, st')]_vars
 Inv_C19_Unique == C19_Unique(gh)
+Inv_C19_Permanent == C19_Permanent(st, gh)
 Act_Rejected_NoEffect == [][Rejected_NoEffect(st, ev', st')]_vars
 
 (* transaction names make every history its own state; the ghosts ride along *)
